@@ -250,6 +250,29 @@ fn warm_up_once() {
     });
 }
 
+/// What the watchdog (`watchdog.rs`) can see of the run an OS thread is executing right now.
+pub struct WatchSlot {
+    pub case: Case,
+    pub out: Shared,
+    pub progress: Arc<std::sync::atomic::AtomicU64>,
+    pub last_value: u64,
+    pub last_change: std::time::Instant,
+}
+
+pub fn watch_table() -> &'static Mutex<std::collections::HashMap<std::thread::ThreadId, WatchSlot>> {
+    static T: std::sync::OnceLock<Mutex<std::collections::HashMap<std::thread::ThreadId, WatchSlot>>> = std::sync::OnceLock::new();
+    T.get_or_init(|| Mutex::new(std::collections::HashMap::new()))
+}
+
+struct WatchGuard;
+impl Drop for WatchGuard {
+    fn drop(&mut self) {
+        if let Ok(mut t) = watch_table().lock() {
+            t.remove(&std::thread::current().id());
+        }
+    }
+}
+
 /// Execute one case. `body` runs as the main task of the simulated execution.
 pub fn run_case<F>(case: &Case, body: F) -> CaseResult
 where
@@ -257,6 +280,12 @@ where
 {
     warm_up_once();
     let shared: Shared = Arc::new(Mutex::new(RunOutput::default()));
+    {
+        let progress = rt::progress_handle();
+        let v = progress.load(std::sync::atomic::Ordering::Relaxed);
+        watch_table().lock().unwrap().insert(std::thread::current().id(), WatchSlot { case: case.clone(), out: Arc::clone(&shared), progress, last_value: v, last_change: std::time::Instant::now() });
+    }
+    let _watch_guard = WatchGuard;
     let replay = match (&case.sched.strategy, &case.schedule) {
         (Strategy::Replay, Some(r)) => Some(rle_decode(r)),
         _ => None,
